@@ -33,6 +33,10 @@ def guardOk (l : List Instr) : Gen.Guard → Bool
     match l[i]? with
     | some x => x.fld f == c
     | none => false
+  | .nec i f c =>
+    match l[i]? with
+    | some x => x.fld f != c
+    | none => false
 
 def opsOf (l : List Instr) : List String := l.map (·.op)
 
